@@ -415,8 +415,12 @@ def run_instance(mods, spec, header, forest, asmcls, seed, max_pairs, selftest_s
                 st['undefined'] += 1
                 continue
             tol = orc.REL * mag[q] + 1e-300
-            linear = np.isfinite(full[q]) and np.isfinite(magfull[q]) and abs(full[q] - local[q]) <= orc.REL * magfull[q] + 1e-300
-            ref = full[q] if linear else local[q]
+            # The generated entry_impl sums over the joint support (coq/C01: entry_impl_as_sum); that sum is the
+            # reference.  It equals the sum over ALL Gauss nodes iff the terms outside the joint support vanish
+            # (entry_is_full_gauss_sum): checked here numerically and only counted -- a form for which they do not
+            # vanish is not (bi)linear in the basis functions, and the property does not speak about it.
+            linear = np.isfinite(full[q]) and np.isfinite(magfull[q]) and abs(full[q] - local[q]) <= orc.REL * mag[q] + 1e-300
+            ref = local[q]
             if linear:
                 st['compared_full'] += 1
             else:
